@@ -28,7 +28,8 @@ THEOREMS = [
     "C20.confined_partial", "C20.source_never_target",
     "C20.confined_fails_init_above_output", "C20.confined_fails_source_written", "C20.confined_fails_root_escape",
     "C20.confined_full_false",
-    "C20.gated_blacklist", "C20.gated_whitelist", "C20.gated_packages", "C20.modPath_undotted",
+    "C20.gated_blacklist", "C20.gated_whitelist", "C20.gated_packages", "C20.gated_run", "C20.modPath_undotted",
+    "C20.gated_fqn_fails_undotted",
 ]
 MODEL_ERRS = {"AssertionError", "ModuleNotFoundError", "TypeError", "FileNotFoundError", "FileExistsError", "AttributeError", "NotADirectoryError"}
 
@@ -56,6 +57,47 @@ def gen_scenario(r: random.Random, idx: int, force=None) -> dict:
     elif x < 0.22:
         runs.append({"cfg": cfg, "dry": dry})  # the same again (idempotence region of the model's state handling)
     return {"idx": idx, "tree": tree, "pre": pre, "runs": runs}
+
+
+# ----------------------------------------------------------------------------------------------------------------------
+# fixed minimal witnesses of the known findings (replayed on every run; a witness that stops failing is reported as stale)
+# ----------------------------------------------------------------------------------------------------------------------
+_CLS = 'class %s(object):\n    """\n    %s thing\n\n    :cvar a: the a\n    """\n\n    a: int = 5\n'
+_FN = 'def %s(x=3):\n    """\n    %s does it\n\n    :param x: the x\n    :type x: ```int```\n\n    :return: the result\n    :rtype: ```int```\n    """\n    return x\n'
+
+
+def _tree(top, files, packages, modules, symbols):
+    return {"top": top, "files": files, "packages": packages, "modules": modules, "symbols": symbols, "levels": max(p.count(".") for p in packages) + 1}
+
+
+def _cfg(module, out_rel="out/o1", **kw):
+    c = {"module": module, "emit": ["class"], "target": None, "out_rel": out_rel, "blacklist": [], "whitelist": [], "recursive": False, "sqlsub": False}
+    c.update(kw)
+    return c
+
+
+def witnesses():
+    mypkg = _tree("mypkg", {
+        "mypkg/__init__.py": '"""mypkg"""\nfrom mypkg.alpha import Alpha\n\n__all__ = ["Alpha"]\n',
+        "mypkg/alpha.py": '"""alpha"""\n\n\n' + _CLS % ("Alpha", "Alpha") + '\n\n__all__ = ["Alpha"]\n',
+        "mypkg/sub/__init__.py": '"""sub"""\nfrom mypkg.sub.gamma import Gamma\n\n__all__ = ["Gamma"]\n',
+        "mypkg/sub/gamma.py": '"""gamma"""\n\n\n' + _CLS % ("Gamma", "Gamma") + '\n\n__all__ = ["Gamma"]\n',
+    }, ["mypkg", "mypkg.sub"], ["mypkg.alpha", "mypkg.sub.gamma"], {"mypkg.alpha": ["Alpha"], "mypkg.sub.gamma": ["Gamma"]})
+    conf = _tree("conf", {"conf/__init__.py": '"""conf"""\n\n\n' + _FN % ("conf_from_env", "conf_from_env") + '\n\n__all__ = ["conf_from_env"]\n'},
+                 ["conf"], [], {})
+    ut = _tree("ut", {
+        "ut/__init__.py": '"""ut"""\nfrom utx.h import H\n\n__all__ = ["H"]\n',
+        "utx/__init__.py": '"""utx"""\n',
+        "utx/h.py": '"""h"""\n\n\n' + _CLS % ("H", "H") + '\n\n__all__ = ["H"]\n',
+    }, ["ut"], [], {})
+    return [
+        ("C20-src-init-overwrite", conf, _cfg("conf")),
+        ("C20-init-above-output", mypkg, _cfg("mypkg", out_rel="out/gold")),
+        ("C20-blacklist-top-undotted", mypkg, _cfg("mypkg", blacklist=["mypkg"])),
+        ("C20-blacklist-subpackage", mypkg, _cfg("mypkg", blacklist=["mypkg.sub"], recursive=True)),
+        ("C20-blacklist-module-file", mypkg, _cfg("mypkg", blacklist=["mypkg.alpha"])),
+        ("C20-root-escape", ut, _cfg("ut")),
+    ]
 
 
 def excluded_units(tree: dict, cfg: dict):
@@ -212,44 +254,44 @@ def new_module_name(cfg: dict) -> str:
 
 
 def oracle(chk: core.Check, sc: dict, k: int, st: dict):
-    """The statement of C20 evaluated on what the real run did to the real file system."""
+    """The statement of C20 evaluated on what the real run did to the real file system (one failure per run and kind)."""
     cfg, dry = st["cfg"], st["dry"]
     tree = sc["tree"]
     replay = {"tree": tree, "pre": sc["pre"], "runs": sc["runs"][: k + 1], "step": k}
     out_rel = cfg["out_rel"]
     touched = st["created"] + st["deleted"] + st["changed"]
     blocked = [e for e in st["events"] if e[0] == "blocked"]
+    fails = {}  # signature (json) -> [sig, messages]
+
+    def fail(sig, msg):
+        fails.setdefault(json.dumps(sig, sort_keys=True), [sig, []])[1].append(msg)
+
     if dry:
         if touched or st["dir_mtime"] or blocked:
             where = "output" if all(under(out_rel, p) for p in touched + st["dir_mtime"]) else "elsewhere"
-            chk.failure({"kind": "dry-run-changed-fs", "where": where, "sqlsub": bool(cfg["sqlsub"]), "emit": cfg["emit"][0]},
-                        "dry run changed the file system: created %s deleted %s changed %s dir-mtime %s blocked %s" %
-                        (st["created"][:4], st["deleted"][:4], st["changed"][:4], st["dir_mtime"][:4], blocked[:2]), replay)
-        return
-    # real run -----------------------------------------------------------------------------------------------------
-    nmn = new_module_name(cfg)
-    for p in touched:
-        if under("src", p):
-            clash = p.endswith("__init__.py") and init_defs_clash(tree, cfg, p)
-            chk.failure({"kind": "source-modified", "file": os.path.basename(p), "init_def_prefixed_by_module_name": clash},
-                        "source package modified: %s (%s)" % (p, "created" if p in st["created"] else "deleted" if p in st["deleted"] else "changed"), replay)
-        elif not under(out_rel, p):
-            if p in st["created"] and under(p, out_rel) and not st["out_existed"]:
-                continue  # a missing ancestor of the output directory itself
-            parent_init = p == os.path.join(os.path.dirname(out_rel), "__init__.py")
-            odim = ("/" + out_rel).replace("/", ".").endswith(nmn)
-            chk.failure({"kind": "outside-output", "path": "parent-of-output/__init__.py" if parent_init else "other",
-                         "output_dir_name_ends_with_new_module_name": odim},
-                        "created/changed outside the output directory %s: %s" % (out_rel, p), replay)
-    for e in blocked:
-        chk.failure({"kind": "outside-output", "path": "outside-temp-root", "output_dir_name_ends_with_new_module_name": False},
-                    "write outside the temp root was attempted (and blocked): %s" % (e,), replay)
-    for rel, why in st["gen_bad"]:
-        chk.failure({"kind": "generated-file-invalid", "why": why.split(":")[0], "emit": cfg["emit"][0], "file": os.path.basename(rel)},
-                    "generated file %s: %s" % (rel, why), replay)
-    ex = excluded_units(tree, cfg)
-    if ex is not None:
-        for u in ex:
+            fail({"kind": "dry-run-changed-fs", "where": where, "sqlsub": bool(cfg["sqlsub"]), "emit": cfg["emit"][0]},
+                 "created %s deleted %s changed %s dir-mtime %s blocked %s" % (st["created"][:4], st["deleted"][:4], st["changed"][:4], st["dir_mtime"][:4], blocked[:2]))
+    else:
+        nmn = new_module_name(cfg)
+        for p in touched:
+            how = "created" if p in st["created"] else "deleted" if p in st["deleted"] else "changed"
+            if under("src", p):
+                clash = p.endswith("__init__.py") and init_defs_clash(tree, cfg, p)
+                fail({"kind": "source-modified", "file": os.path.basename(p), "init_def_prefixed_by_module_name": clash}, "%s (%s)" % (p, how))
+            elif not under(out_rel, p):
+                if p in st["created"] and under(p, out_rel) and not st["out_existed"]:
+                    continue  # a missing ancestor of the output directory itself
+                parent_init = p == os.path.join(os.path.dirname(out_rel), "__init__.py")
+                odim = ("/" + out_rel).replace("/", ".").endswith(nmn)
+                fail({"kind": "outside-output", "path": "parent-of-output/__init__.py" if parent_init else "other",
+                      "output_dir_name_ends_with_new_module_name": odim}, "%s (%s; output directory %s)" % (p, how, out_rel))
+        for e in blocked:
+            fail({"kind": "outside-output", "path": "outside-temp-root", "output_dir_name_ends_with_new_module_name": False},
+                 "write outside the temp root attempted (refused by the harness): %s" % (e[1],))
+        for rel, why in st["gen_bad"]:
+            fail({"kind": "generated-file-invalid", "why": why.split(":")[0], "emit": cfg["emit"][0], "file": os.path.basename(rel)}, "%s: %s" % (rel, why))
+        ex = excluded_units(tree, cfg)
+        for u in ex or []:
             base = out_rel + ("/" + u["rel"] if u["rel"] else "")
             outs = []
             for p in st["created"] + st["changed"]:
@@ -260,16 +302,20 @@ def oracle(chk: core.Check, sc: dict, k: int, st: dict):
                     continue  # the per-run submodule requested by --emit-sqlalchemy-submodule is not a module's output
                 if any(under(c[len(u["rel"]) + 1:] if u["rel"] else c, tail) for c in u["children"]):
                     continue
-                if p not in st["changed"] and os.path.basename(p) != p and not p.endswith(".py"):
+                if p not in st["changed"] and not p.endswith(".py"):
                     continue  # a bare directory
-                if u["stems"] is not None:
-                    comps = tail.split("/")
-                    if not any(c == s or c == s + ".py" for c in comps for s in u["stems"]):
-                        continue
+                if u["stems"] is not None and not any(c == s_ or c == s_ + ".py" for c in tail.split("/") for s_ in u["stems"]):
+                    continue
                 outs.append(p)
             if outs:
-                chk.failure({"kind": "excluded-module-output", "list": u["why"], "unit": u["unit"], "position": u["position"]},
-                            "module %s is excluded (%s) but produced %s" % (u["fqn"], u["why"], outs[:4]), replay)
+                fail({"kind": "excluded-module-output", "list": u["why"], "unit": u["unit"], "position": u["position"]},
+                     "module %s is excluded (%s) but produced %s" % (u["fqn"], u["why"], outs[:4]))
+    kinds = {"dry-run-changed-fs": "dry run changed the file system", "source-modified": "source package modified",
+             "outside-output": "created/changed outside the output directory", "generated-file-invalid": "generated file invalid",
+             "excluded-module-output": "excluded module produced output"}
+    for sig, msgs in fails.values():
+        chk.failure(sig, "%s [%s]: %s%s" % (kinds[sig["kind"]], " ".join(R.cli_args(cfg, out_rel, dry)), "; ".join(msgs[:5]),
+                                             " (+%d more)" % (len(msgs) - 5) if len(msgs) > 5 else ""), replay)
 
 
 def first_source_write(trace):
@@ -303,6 +349,14 @@ def compare(st: dict, m: dict):
         if obs == mt[: len(obs)] and st["prints"] == mp[: len(st["prints"])]:
             return "outside-domain"
         return "before an exception in assumed code (%s in %s) the effects differ: real %s model %s" % (st["err"], st["raised_in"], obs[-2:], mt[max(0, len(obs) - 2): len(obs)])
+    blocked = [e for e in st["events"] if e[0] == "blocked"]
+    if blocked:
+        # the harness refused a write outside the temp root (and thereby ended the run): up to there the model must agree,
+        # and its next effect must be the refused one
+        n = len(obs)
+        if obs == mt[:n] and len(mt) > n and mt[n][1] == blocked[0][1] and not under(R.CANON, mt[n][1]):
+            return None
+        return "before the refused write %s the effects differ: real %s model %s" % (blocked[0], obs[-2:], mt[max(0, n - 2): n + 1])
     i1, i2 = first_source_write(obs), first_source_write(mt)
     if i1 is not None or i2 is not None:
         # exmod overwrote part of its own input: from there on its behaviour depends on re-parsing generated code
@@ -322,8 +376,8 @@ def compare(st: dict, m: dict):
         return "status differs: real %s model %s" % (status, m["status"])
     if sorted(p for p in m["files"] if p.endswith(".py")) != st["after_py"]:
         return "python files afterwards differ: real-only %s model-only %s" % (sorted(set(st["after_py"]) - set(m["files"]))[:3], sorted(set(m["files"]) - set(st["after_py"]))[:3])
-    if sorted(set(m["dirs"]) - {R.CANON}) != st["after_dirs"]:
-        return "directories afterwards differ: real-only %s model-only %s" % (sorted(set(st["after_dirs"]) - set(m["dirs"]))[:3], sorted(set(m["dirs"]) - set(st["after_dirs"]) - {R.CANON})[:3])
+    if sorted(set(m["dirs"]) - {R.CANON, "/"}) != st["after_dirs"]:
+        return "directories afterwards differ: real-only %s model-only %s" % (sorted(set(st["after_dirs"]) - set(m["dirs"]))[:3], sorted(set(m["dirs"]) - set(st["after_dirs"]) - {R.CANON, "/"})[:3])
     return None
 
 
@@ -450,7 +504,19 @@ def run(chk: core.Check) -> int:
                 c["emit"] = [rng.choice(["sqlalchemy", "sqlalchemy_table", "sqlalchemy_hybrid"])]
                 c["sqlsub"] = True
             directed.append(sc)
+        wit = witnesses()
+        wsc = [{"idx": -1 - i, "tree": t, "pre": {"kind": "absent"}, "runs": [{"cfg": c, "dry": False}]} for i, (_, t, c) in enumerate(wit)]
+        seen_before = {}
         t0 = time.time()
+        for (fid, _, _), sc in zip(wit, wsc):
+            before = chk.kf.items and {it["id"]: it["seen"] for it in chk.kf.items} or {}
+            nw, dw = evaluate(chk, [sc], "witness %s" % fid)
+            after = {it["id"]: it["seen"] for it in chk.kf.items}
+            if after.get(fid, 0) <= before.get(fid, 0):
+                chk.notes.append("known finding %s: its witness no longer fails (stale line in known_findings.d/C20.txt, or not listed)" % fid)
+            if dw:
+                chk.oblige("correspondence on the witness of %s" % fid, "correspondence", False, "model and code differ on the witness")
+        chk.coverage["witnesses"] = [w[0] for w in wit]
         n1, d1 = evaluate(chk, scenarios, "generated stream")
         n2, d2 = evaluate(chk, directed, "directed stream")
         chk.coverage["real_runs"] = n1 + n2
